@@ -66,6 +66,20 @@ func lockRule(c *rt.Ctx, pkgs []string, table an.LockTable) {
 			c.Good(k, g.pos, fmt.Sprintf("%d access(es) under the guarding mutex", g.n))
 		}
 	}
+	// check-then-act: a read of a guarded field followed, in the same function, by a write of that field must not
+	// have an explicit unlock of the mutex in between (the duplicate scan / lookup and the insertion are one
+	// critical section)
+	nPairs, splits := ls.AtomicRMW()
+	splitKey := map[string]bool{}
+	for _, sp := range splits {
+		k := fmt.Sprintf("%s %s read→write atomic", an.FuncName(sp.Fn), sp.Field)
+		splitKey[k] = true
+		c.Bad(k, sp.Unlock.Pos(), "the mutex is released between reading "+sp.Field+" and writing it: the write acts on a stale read (two concurrent callers both pass the check)")
+	}
+	if nPairs > 0 && len(splits) == 0 {
+		c.Good("read→write sequences of guarded fields are atomic", token.NoPos, fmt.Sprintf("%d function/field pairs, no unlock between a read and a dependent write", nPairs))
+	}
+
 	// entry requirements: only *Unsafe-style internal helpers may need a lock on entry, and
 	// they must never be used as values or started as goroutines.
 	inSet := map[*ssa.Function]bool{}
